@@ -1,14 +1,17 @@
 #!/bin/bash
 # tools/seedcheck.sh <seed-dir> <property-id> [extra check ids...]
-# Confirms a seeded property-breaking change (patch.diff + demo_test.go) in a scratch worktree:
+# Confirms a seeded property-breaking change (patch.diff + demo_test.go) in a scratch worktree of /repo:
 #   demo passes on the unchanged tree, existing suite passes with the change, demo fails with the change;
-# then applies it to /repo, runs the property's quick check (and any extra ones), and undoes it.
+# then runs the property's quick check (and any extra ones) against that worktree (VERIF_REPO) with its own
+# build directory, so /repo itself is never modified and several seeds can be checked at once.
+# With APPLY_TO_REPO=1 the patch is instead applied to /repo (git apply), checked, and undone (git checkout -- .).
 set -u
 D=$(cd "$1" && pwd); ID=$2; shift 2
 export GOFLAGS=-mod=mod GOPROXY=off GOSUMDB=off GOTOOLCHAIN=local
 WT=/tmp/sc-$$
 git -C /repo worktree add --detach "$WT" HEAD -q || exit 2
-trap 'git -C /repo worktree remove --force "$WT" 2>/dev/null; git -C /repo checkout -q -- . 2>/dev/null' EXIT
+cleanup() { git -C /repo worktree remove --force "$WT" 2>/dev/null; rm -rf "$WT.build" /tmp/sc-$$.*; [ "${APPLY_TO_REPO:-}" = 1 ] && git -C /repo checkout -q -- . ; }
+trap cleanup EXIT
 RACE=""; grep -qi -- "-race" "$D/README.md" 2>/dev/null && RACE="-race"
 cp "$D/demo_test.go" "$WT/zz_demo_test.go"
 (cd "$WT" && CGO_ENABLED=1 go test $RACE -vet=off -count=1 -run 'TestDemo' . >/tmp/sc-$$.1 2>&1); A=$?
@@ -17,18 +20,20 @@ git -C "$WT" apply "$D/patch.diff" || { echo "RESULT patch does not apply"; exit
 (cd "$WT" && go test -vet=off -count=1 . >/tmp/sc-$$.2 2>&1); B=$?
 cp "$D/demo_test.go" "$WT/zz_demo_test.go"
 (cd "$WT" && CGO_ENABLED=1 go test $RACE -vet=off -count=1 -run 'TestDemo' . >/tmp/sc-$$.3 2>&1); C=$?
+rm "$WT/zz_demo_test.go"
 echo "demo_on_unchanged_tree_exit=$A (want 0)  suite_with_change_exit=$B (want 0)  demo_with_change_exit=$C (want !=0)  race_flag='$RACE'"
 [ $A -ne 0 ] && tail -5 /tmp/sc-$$.1
 [ $B -ne 0 ] && tail -8 /tmp/sc-$$.2
 [ $C -eq 0 ] && tail -5 /tmp/sc-$$.3
-rm -f /tmp/sc-$$.*
-git -C /repo worktree remove --force "$WT"
 if [ $A -ne 0 ] || [ $B -ne 0 ] || [ $C -eq 0 ]; then echo "RESULT seed NOT confirmed"; exit 3; fi
-echo "seed confirmed; running checks on /repo with the change applied"
-git -C /repo apply "$D/patch.diff" || exit 2
+echo "seed confirmed"
+if [ "${APPLY_TO_REPO:-}" = 1 ]; then
+  git -C /repo apply "$D/patch.diff" || exit 2
+  RUN="env VERIF_NO_EVIDENCE=1"
+else
+  RUN="env VERIF_NO_EVIDENCE=1 VERIF_REPO=$WT VERIF_BUILD=$WT.build"
+fi
 for id in $ID "$@"; do
-  out=$(cd /verif && VERIF_NO_EVIDENCE=1 ./check $id --tier quick 2>/dev/null); rc=$?
-  echo "CHECK $id exit=$rc :: $(echo "$out" | grep -E 'VIOLATION|INTERNAL' | head -3 | cut -c1-330)"
+  out=$(cd /verif && $RUN ./check $id --tier ${TIER:-quick} 2>/dev/null); rc=$?
+  echo "CHECK $id exit=$rc :: $(echo "$out" | grep -E 'VIOLATION|INTERNAL' | head -${NLINES:-2} | cut -c1-${WIDTH:-300})"
 done
-git -C /repo checkout -q -- .
-git -C /repo status --short | head -3
